@@ -8,7 +8,7 @@ D=$(readlink -f "$1"); TEST=$2; shift 2
 WT=/tmp/confirm-wt-$$
 git -C /repo worktree add -q --detach "$WT" HEAD || exit 2
 SRCS="$WT/src/babylon/concurrent/*.cpp $WT/src/babylon/*.cpp $WT/src/babylon/reusable/*.cpp $WT/src/babylon/reusable/patch/*.cpp $WT/src/babylon/logging/*.cpp $WT/src/babylon/coroutine/*.cpp $WT/src/babylon/serialization/*.cpp"
-LIBS="-lprotobuf -labsl_base -labsl_time -labsl_strings -labsl_int128 -labsl_raw_logging_internal -labsl_throw_delegate -labsl_hash -labsl_raw_hash_set -labsl_city -labsl_low_level_hash -labsl_bad_optional_access -labsl_cord -labsl_synchronization -labsl_status -labsl_strings_internal -labsl_str_format_internal -lpthread -ldl -latomic"
+LIBS="-labsl_time_zone -lprotobuf -labsl_base -labsl_time -labsl_strings -labsl_int128 -labsl_raw_logging_internal -labsl_throw_delegate -labsl_hash -labsl_raw_hash_set -labsl_city -labsl_low_level_hash -labsl_bad_optional_access -labsl_cord -labsl_synchronization -labsl_status -labsl_strings_internal -labsl_str_format_internal -lpthread -ldl -latomic"
 FLAGS="-std=gnu++20 -O1 -g -DNDEBUG -w -fno-access-control -I$WT/src -isystem /root/miniconda/include"
 lib() { mkdir -p $WT/_o && ( cd $WT/_o && ls $SRCS $WT/src/babylon/anyflow/*.cpp $WT/src/babylon/anyflow/builtin/*.cpp 2>/dev/null | xargs -P 16 -I{} sh -c 'g++ '"$FLAGS"' -c {} -o $(echo {} | md5sum | cut -c1-12).o' ) && ar rcs $WT/_lib.a $WT/_o/*.o; }
 demo() { g++ $FLAGS $D/demo.cpp $WT/_lib.a $LIBS -o $WT/_demo 2>$WT/_demo.err && ( cd $WT && timeout 120 ./_demo >$WT/_demo.out 2>&1 ); }
@@ -19,8 +19,12 @@ rm -rf $WT/_o $WT/_lib.a
 lib || { echo "NOT-CONFIRMED: patched tree does not build"; git -C /repo worktree remove --force $WT; exit 1; }
 demo; R1=$?
 TAIL1=$(tail -2 $WT/_demo.out 2>/dev/null | tr '\n' ' ')
-g++ $FLAGS -I$WT/test $WT/$TEST $WT/_lib.a -L/root/miniconda/lib -Wl,-rpath,/root/miniconda/lib -lgtest -lgtest_main $LIBS -o $WT/_ut 2>$WT/_ut.err && ( cd $WT && timeout 600 ./_ut > $WT/_ut.out 2>&1 ); RT=$?
-echo "demo on HEAD rc=$R0; demo with patch rc=$R1 ($TAIL1); unit test $TEST with patch rc=$RT ($(tail -1 $WT/_ut.out 2>/dev/null))"
-[ $RT -ne 0 ] && tail -5 $WT/_ut.err
+RT=0; UTSUM=""
+for T in $(echo $TEST | tr ',' ' '); do
+  g++ $FLAGS -I$WT/test $WT/$T $WT/_lib.a -L/root/miniconda/lib -Wl,-rpath,/root/miniconda/lib -lgtest -lgtest_main $LIBS -labsl_time_zone -o $WT/_ut 2>$WT/_ut.err && ( cd $WT && timeout 600 ./_ut > $WT/_ut.out 2>&1 ); R=$?
+  UTSUM="$UTSUM $T:rc=$R($(tail -1 $WT/_ut.out 2>/dev/null | tr -d '\n'))"
+  [ $R -ne 0 ] && { RT=$R; tail -5 $WT/_ut.err; }
+done
+echo "demo on HEAD rc=$R0; demo with patch rc=$R1 ($TAIL1); unit tests with patch:$UTSUM"
 if [ $R0 -eq 0 ] && [ $R1 -ne 0 ] && [ $RT -eq 0 ]; then echo CONFIRMED; else echo NOT-CONFIRMED; fi
 git -C /repo worktree remove --force $WT
